@@ -13,6 +13,7 @@ import (
 	"encoding/binary"
 	"fmt"
 	"io"
+	"os"
 	"runtime"
 	"strings"
 	"time"
@@ -23,11 +24,15 @@ import (
 	link_solicit "github.com/aperturerobotics/bifrost/link/solicit"
 	"github.com/aperturerobotics/bifrost/peer"
 	"github.com/aperturerobotics/bifrost/pubsub/floodsub"
+	"github.com/aperturerobotics/bifrost/pubsub/util/pubmessage"
 	signaling "github.com/aperturerobotics/bifrost/signaling/rpc"
 	stream_packet "github.com/aperturerobotics/bifrost/stream/packet"
 	transport_controller "github.com/aperturerobotics/bifrost/transport/controller"
+	"github.com/aperturerobotics/bifrost/transport/webrtc"
 	"github.com/aperturerobotics/bifrost/util/rwc"
 	pbl "github.com/aperturerobotics/protobuf-go-lite"
+	"github.com/aperturerobotics/protobuf-go-lite/types/known/timestamppb"
+	"github.com/cloudflare/circl/group"
 
 	"verif/harness/lib"
 )
@@ -113,24 +118,60 @@ func (e *engine) decoders() []decoder {
 		}
 		return b
 	}
-	sessReq := func() []byte {
+	pid, _ := peer.IDFromPrivateKey(e.key)
+	// one valid encoding per oneof arm of the signaling session messages (and an empty body)
+	sessReqs := func() [][]byte {
 		m, _ := signaling.NewSessionMsg(e.key, hash.HashType_HashType_BLAKE3, e.rng.Bytes(10), 3)
-		r := &signaling.SessionRequest{SessionSeqno: 2, Body: &signaling.SessionRequest_SendMsg{SendMsg: m}}
-		b, _ := r.MarshalVT()
-		return b
+		var out [][]byte
+		for _, r := range []*signaling.SessionRequest{
+			{SessionSeqno: 2, Body: &signaling.SessionRequest_SendMsg{SendMsg: m}},
+			{SessionSeqno: 1, Body: &signaling.SessionRequest_Init{Init: &signaling.SessionInit{PeerId: pid.String()}}},
+			{SessionSeqno: 3, Body: &signaling.SessionRequest_ClearMsg{ClearMsg: uint64(e.rng.Intn(1000))}},
+			{SessionSeqno: 4, Body: &signaling.SessionRequest_AckMsg{AckMsg: uint64(e.rng.Intn(1000))}},
+		} {
+			b, err := r.MarshalVT()
+			if err != nil {
+				panic(err)
+			}
+			out = append(out, b)
+		}
+		// the message-typed arms present but empty (init = {}, send_msg = {})
+		return append(out, []byte{0x12, 0x00}, []byte{0x1a, 0x00}, []byte{0x08, 0x02, 0x1a, 0x02, 0x0a, 0x00})
 	}
-	sessResp := func() []byte {
+	sessResps := func() [][]byte {
 		m, _ := signaling.NewSessionMsg(e.key, hash.HashType_HashType_BLAKE3, e.rng.Bytes(10), 3)
-		r := &signaling.SessionResponse{Body: &signaling.SessionResponse_RecvMsg{RecvMsg: m}}
-		b, _ := r.MarshalVT()
-		return b
+		var out [][]byte
+		for _, r := range []*signaling.SessionResponse{
+			{Body: &signaling.SessionResponse_RecvMsg{RecvMsg: m}},
+			{Body: &signaling.SessionResponse_Opened{Opened: uint64(1 + e.rng.Intn(1000))}},
+			{Body: &signaling.SessionResponse_Closed{Closed: true}},
+			{Body: &signaling.SessionResponse_ClearMsg{ClearMsg: uint64(e.rng.Intn(1000))}},
+			{Body: &signaling.SessionResponse_AckMsg{AckMsg: uint64(e.rng.Intn(1000))}},
+		} {
+			b, err := r.MarshalVT()
+			if err != nil {
+				panic(err)
+			}
+			out = append(out, b)
+		}
+		// recv_msg present but empty / with an empty signed message
+		return append(out, []byte{0x1a, 0x00}, []byte{0x1a, 0x02, 0x0a, 0x00})
+	}
+	// one valid WebRTC signal per oneof arm
+	const sdpText = "v=0\r\no=- 4596489990601351948 2 IN IP4 127.0.0.1\r\ns=-\r\nt=0 0\r\na=group:BUNDLE 0\r\nm=application 9 UDP/DTLS/SCTP webrtc-datachannel\r\nc=IN IP4 0.0.0.0\r\na=mid:0\r\na=sctp-port:5000\r\n"
+	signals := func() []*webrtc.WebRtcSignal {
+		return []*webrtc.WebRtcSignal{
+			{Body: &webrtc.WebRtcSignal_RequestOffer{RequestOffer: uint64(e.rng.Intn(100))}},
+			{Body: &webrtc.WebRtcSignal_Sdp{Sdp: &webrtc.WebRtcSdp{TxSeqno: 1, SdpType: "offer", Sdp: sdpText}}},
+			{Body: &webrtc.WebRtcSignal_Sdp{Sdp: &webrtc.WebRtcSdp{TxSeqno: 2, SdpType: "answer", Sdp: sdpText}}},
+			{Body: &webrtc.WebRtcSignal_Ice{Ice: &webrtc.WebRtcIce{Candidate: `{"candidate":"candidate:1 1 udp 2130706431 192.168.1.2 54321 typ host","sdpMid":"0","sdpMLineIndex":0}`}}},
+		}
 	}
 	frame := func(p []byte) []byte {
 		b := make([]byte, 4)
 		binary.LittleEndian.PutUint32(b, uint32(len(p)))
 		return append(b, p...)
 	}
-	pid, _ := peer.IDFromPrivateKey(e.key)
 	pubB, _ := crypto.MarshalPublicKey(e.key.GetPublic())
 	privB, _ := crypto.MarshalPrivateKey(e.key)
 	return []decoder{
@@ -212,14 +253,14 @@ func (e *engine) decoders() []decoder {
 				return "err"
 			}
 			return okErr(r.Validate())
-		}, seeds: func(e *engine) [][]byte { return [][]byte{sessReq()} }},
+		}, seeds: func(e *engine) [][]byte { return sessReqs() }},
 		{name: "sessionResponse", flat: true, run: func(b []byte) string {
 			r := &signaling.SessionResponse{}
 			if err := r.UnmarshalVT(b); err != nil {
 				return "err"
 			}
 			return okErr(r.Validate())
-		}, seeds: func(e *engine) [][]byte { return [][]byte{sessResp()} }},
+		}, seeds: func(e *engine) [][]byte { return sessResps() }},
 		{name: "listenRequest", flat: true, run: func(b []byte) string {
 			return okErr((&signaling.ListenRequest{}).UnmarshalVT(b))
 		}, seeds: func(e *engine) [][]byte {
@@ -268,6 +309,81 @@ func (e *engine) decoders() []decoder {
 			}
 			b, _ := env.MarshalVT()
 			return [][]byte{b}
+		}},
+		{name: "sessionInit", flat: true, run: func(b []byte) string {
+			r := &signaling.SessionInit{}
+			if err := r.UnmarshalVT(b); err != nil {
+				return "err"
+			}
+			return okErr(r.Validate())
+		}, seeds: func(e *engine) [][]byte {
+			a, _ := (&signaling.SessionInit{PeerId: pid.String()}).MarshalVT()
+			return [][]byte{a, {}}
+		}},
+		{name: "webrtcSignal", flat: true, run: func(b []byte) string {
+			// the plaintext of a signaling message as the WebRTC transport handles it: decode, validate
+			// (Validate parses the SDP / the ICE candidate JSON with pion)
+			m := &webrtc.WebRtcSignal{}
+			if err := m.UnmarshalVT(b); err != nil {
+				return "err"
+			}
+			return okErr(m.Validate())
+		}, seeds: func(e *engine) [][]byte {
+			var out [][]byte
+			for _, m := range signals() {
+				b, err := m.MarshalVT()
+				if err != nil {
+					panic(err)
+				}
+				out = append(out, b)
+			}
+			// the message-typed arms present but empty (sdp = {}, ice = {}), an sdp with a type only
+			return append(out, []byte{0x12, 0x00}, []byte{0x1a, 0x00}, []byte{0x12, 0x07, 0x12, 0x05, 'o', 'f', 'f', 'e', 'r'})
+		}},
+		{name: "webrtcSignalSealed", flat: true, run: func(b []byte) string {
+			m, err := webrtc.DecodeWebRtcSignal(b, e.key)
+			if err != nil {
+				return "err"
+			}
+			return okErr(m.Validate())
+		}, seeds: func(e *engine) [][]byte {
+			var out [][]byte
+			for _, m := range signals() {
+				b, err := webrtc.EncodeWebRtcSignal(m, e.key.GetPublic())
+				if err != nil {
+					panic(err)
+				}
+				out = append(out, b)
+			}
+			return out
+		}},
+		{name: "pubMessageInner", flat: true, run: func(b []byte) string {
+			m := &pubmessage.PubMessageInner{}
+			if err := m.UnmarshalVT(b); err != nil {
+				return "err"
+			}
+			return okErr(m.Validate())
+		}, seeds: func(e *engine) [][]byte {
+			a, _ := (&pubmessage.PubMessageInner{Data: e.rng.Bytes(20), Channel: "chan", Timestamp: &timestamppb.Timestamp{Seconds: 1700000000, Nanos: 5}}).MarshalVT()
+			c, _ := (&pubmessage.PubMessageInner{Data: e.rng.Bytes(3), Channel: "c"}).MarshalVT()
+			return [][]byte{a, c}
+		}},
+		{name: "envelopeGrantInner", flat: true, run: func(b []byte) string {
+			// the plaintext of an envelope grant as UnlockEnvelope handles it: decode, then both scalars of every share
+			in := &envelope.EnvelopeGrantInner{}
+			if err := in.UnmarshalVT(b); err != nil {
+				return "err"
+			}
+			for _, s := range in.GetShares() {
+				id, val := group.Ristretto255.NewScalar(), group.Ristretto255.NewScalar()
+				if id.UnmarshalBinary(s.GetId()) != nil || val.UnmarshalBinary(s.GetValue()) != nil {
+					return "err"
+				}
+			}
+			return "ok"
+		}, seeds: func(e *engine) [][]byte {
+			a, _ := (&envelope.EnvelopeGrantInner{Shares: []*envelope.EnvelopeShare{{Id: e.rng.Bytes(32), Value: e.rng.Bytes(32)}, {Id: e.rng.Bytes(32), Value: e.rng.Bytes(32)}}}).MarshalVT()
+			return [][]byte{a}
 		}},
 		{name: "peerIDFromBytes", flat: true, run: func(b []byte) string { _, err := peer.IDFromBytes(b); return okErr(err) },
 			seeds: func(e *engine) [][]byte { return [][]byte{[]byte(pid)} }},
@@ -349,7 +465,7 @@ func (e *engine) mutate(seed []byte, k int) []byte {
 }
 
 func (e *engine) run() {
-	e.rep.Rule = "every network-facing decoder (16, incl. signaling ListenRequest/ListenResponse) × (valid encodings of ordinary and near-limit size; bit flips; truncations; extensions; length lies with 2^20..2^62 varints and 0xff runs; 12 boundary 32-bit length prefixes (2^32-1 … 2^32-8, 2^31, 2^31-1, …) in both byte orders; random bytes; duplicated chunks; group/unknown wire types); outcome must be ok/err (never panic), allocation of one call ≤ the decoder's configured limit (+ slack) or ≤ 64×input+64 KiB for unframed decoders; model comparison where a Lean model exists; distinct = distinct (decoder, input). Real read loops (floodsub AddPeerStream→readPump; solicit HandleMountedStream and initiateControlStream → runControlStream) on scripted streams: valid traffic of ordinary and near-limit size, announced lengths at / one above / far above the protocol's budget with and without body, garbage, truncation; the receive-buffer sizes the loop passes to Read are compared with the Lean model at the generated call-site limits, and none may exceed the protocol's documented budget"
+	e.rep.Rule = "every network-facing decoder (21, incl. signaling ListenRequest/ListenResponse/SessionInit and one valid encoding per oneof arm of SessionRequest/SessionResponse, the WebRTC signal plain (UnmarshalVT + Validate: pion SDP / ICE JSON parsers) and sealed (DecodeWebRtcSignal), PubMessageInner, EnvelopeGrantInner) × (valid encodings of ordinary and near-limit size; bit flips; truncations; extensions; length lies with 2^20..2^62 varints and 0xff runs; 12 boundary 32-bit length prefixes (2^32-1 … 2^32-8, 2^31, 2^31-1, …) in both byte orders; random bytes; duplicated chunks; group/unknown wire types); outcome must be ok/err (never panic), allocation of one call ≤ the decoder's configured limit (+ slack) or ≤ 64×input+64 KiB for unframed decoders; model comparison where a Lean model exists; distinct = distinct (decoder, input). Sealed messages (crafted from first principles with blake3 / AES / X25519 / XChaCha20-Poly1305 / S2, valid under the AEAD) through DecryptWithPrivKey, DecodeWebRtcSignal and UnlockEnvelope (grant ciphertext): compressed blocks that declare 64 KiB … 2^32-1 bytes with no / a short body and genuine S2 bombs of 1 MiB / 16 MiB / 16 MiB+1 zeros; one call must allocate at most min(declared, 16 MiB) + 64×input + 256 KiB and return ok/err (classes of 1 GiB and 2^32-1 in a child process). Real read loops (floodsub AddPeerStream→readPump; solicit HandleMountedStream and initiateControlStream → runControlStream) on scripted streams: valid traffic of ordinary and near-limit size, announced lengths at / one above / far above the protocol's budget with and without body, garbage, truncation; the receive-buffer sizes the loop passes to Read are compared with the Lean model at the generated call-site limits, and none may exceed the protocol's documented budget"
 	ds := e.decoders()
 	for _, d := range ds {
 		e.rep.Require("dec." + d.name + ".ok")
@@ -367,13 +483,18 @@ func (e *engine) run() {
 			bigs = d.big(e)
 		}
 		bigMut := []int{0, 1, 2, 4}
-		for i := 0; i < n+2*len(edges)+len(bigs)*len(bigMut); i++ {
+		// every seed (one per oneof arm / shape) first runs as it is, then the mutation schedule
+		for i0 := 0; i0 < len(seeds)+n+2*len(edges)+len(bigs)*len(bigMut); i0++ {
 			var b []byte
-			if i >= n+2*len(edges) {
+			i := i0 - len(seeds)
+			if i0 < len(seeds) {
+				b = append([]byte(nil), seeds[i0]...)
+			} else if i >= n+2*len(edges) {
 				k := i - n - 2*len(edges)
 				b = e.mutate(bigs[k/len(bigMut)], bigMut[k%len(bigMut)])
 			} else if i < n {
-				b = e.mutate(seeds[i%len(seeds)], i)
+				// i/10 walks the seeds independently of the mutation kind i%10
+				b = e.mutate(seeds[(i+i/10)%len(seeds)], i)
 			} else {
 				k := i - n
 				b = append([]byte(nil), seeds[k%len(seeds)]...)
@@ -457,6 +578,10 @@ func (e *engine) run() {
 }
 
 func main() {
+	if os.Getenv("VERIF_DECODERS_CHILD") == "sealed" {
+		childSealed()
+		return
+	}
 	a := lib.ParseArgs()
 	e := &engine{a: a, rng: lib.NewRng(a.Seed), m: lib.NewModel(a.Driver)}
 	e.rep = lib.NewReport("decoders", a)
@@ -470,6 +595,7 @@ func main() {
 		return
 	}
 	e.run()
+	e.runSealed()
 	e.runLoops()
 	e.m.Close()
 	e.rep.Write(a.Out)
